@@ -21,6 +21,23 @@ CLAIMED = {
              'derived-benign repo functions, namespace subscripts, raise); '
              'TemplateDict._push/_pop are append/remove-from-end'),
 }
+CLAIMED['C04'] = dict(
+    technique='inter-procedural path-sensitive taint analysis (abstract '
+              'kinds T/P/C/H/Q/O, function summaries, table-driven '
+              'dispatch) of the dtml-var pipeline',
+    text='Full mechanism: with the inserted value a TaintedString, no text '
+         'derived from it reaches an output sink of dtml-var (every return '
+         'of Var.render, the append of the simple form, the _.string '
+         'wrapper) as plain text or unquoted, on any path: all subsets of '
+         'the modifier table in table order, every special format, every '
+         'method-format name, C formats, size/etc, null/missing; and no '
+         'html-escaping operation is applied to already escaped tainted '
+         'text. Not decided: taint of values manufactured inside user '
+         'expressions; TaintedBytes; what AccessControl taints.',
+    ref='4 C04, 3.4, App. C',
+    note='library model read from AccessControl/tainted.py and a frozen '
+         'str-method table; html.escape/urllib quote sanitise; known '
+         'findings in known_findings.json')
 PENDING = {}
 NA = {
     'C16': 'numerical identities over run-time data (sums, means, n vs n-1, '
